@@ -44,6 +44,8 @@ var out = gen.NewOut()
 
 var nPred = map[string]int{}
 
+var realTimeStalls int // thorough tier: the first two silent-peer cases are also watched for 11 s of real time
+
 func pred(sig, detail string) {
 	nPred[sig]++
 	if nPred[sig] <= 3 {
@@ -434,7 +436,8 @@ func runScripted(e *env, r *gen.Rand, npeers int, heights []int64, beh behaviour
 			case <-time.After(longWait):
 				res = "never-read"
 			}
-			if gen.Thorough() && res == "unbounded" {
+			if gen.Thorough() && res == "unbounded" && realTimeStalls < 2 {
+				realTimeStalls++
 				// real time: still blocked after the 10 s dial context has expired
 				time.Sleep(11 * time.Second)
 				select {
